@@ -330,7 +330,11 @@ def run(ctx):
     # stage traces of all these runs against the stage machine (tla/Pipeline.tla): loops are barriers over the
     # conformations, the average comes after every conformation was scored and analysed, counts are frozen
     traces = [(n, e) for n, e in stage_events if e and e[0]["ev"] == "Read"]
-    rejected, incomplete = pipeline.validate(ctx, [e for _, e in traces], "stage traces of the multi-conformation runs")
+    try:
+        rejected, incomplete = pipeline.validate(ctx, [e for _, e in traces], "stage traces of the multi-conformation runs")
+    except tlc.TLCError as ex:      # (notes only: not completing in the time limit on a loaded machine is a note too)
+        ctx.note("BEYOND-PROPERTIES: stage-trace validation did not complete: " + str(ex).splitlines()[0][:200])
+        rejected, incomplete = {}, {}
     ctx.extra["stage_traces"] = {"runs": len(traces), "events": sum(len(e) for _, e in traces), "rejected": len(rejected),
                                  "incomplete": len(incomplete)}
     for i, at in sorted(rejected.items())[:5]:
